@@ -1,5 +1,6 @@
 (* PoolModel (pool.OnDemandBlockTaskPool), proofs for C12 / liveness side of C10 - B7: the target statements follow from the invariant RECORDS at one configuration *)
-From Ekit Require Import Common Conc PoolModel PoolProof PoolProof2 PoolProof4 PoolProof5 PoolProof6 PoolProof7 PoolProofB PoolProofB0 PoolProofBA PoolProofB1 PoolProofB2d PoolProofB2bd PoolProofB3d PoolProofB4d PoolProofB5d PoolProofB6 PoolProofBR.
+From Ekit Require Import Common Conc PoolModel PoolProof PoolProof2 PoolProof4 PoolProof5 PoolProof6 PoolProof7 PoolProofB
+  PoolProofB0 PoolProofBA PoolProofB1 PoolProofB2d PoolProofB2bd PoolProofB3d PoolProofB4d PoolProofB5d PoolProofB5bs PoolProofB6 PoolProofBR.
 From Coq Require Import ZifyBool Arith PeanoNat.
 
 (* agent-pool's sums and mine are the same function *)
